@@ -477,6 +477,10 @@ class HttpPattern(object):
         if self.address is None:
             self.address = descriptor.name
 
+            # the method name is a literal, not a pattern: its dots are dots
+            self.address_re, self.address_b_re = \
+                          self._compile_url_pattern(re.escape(self.address))
+
     @property
     def address(self):
         return self.__address
